@@ -13,7 +13,13 @@ The C15 model and theorems are stated about these generated definitions.
 The expressions are parsed by a small recursive-descent parser for C integer expressions (?:, || && == != < <= > >=,
 + - * / %, parentheses, sizeof/alignof of the known type names, std::lcm, size_type(-1)); anything outside that
 grammar makes the translator fail loudly.  Target assumptions written into the file: LP64 (pointer size and alignment
-8, size_t = 64 bit)."""
+8, size_t = 64 bit).
+
+Round five: the statement shapes are matched on a normal form of each function body (section "statement-level
+normalisation": locals renamed by role, single-assignment side-effect-free locals inlined, pure return-tree helpers
+expanded, for -> while, null tests, inverted guard, flipped request bound), so that ordinary maintenance rewrites of the
+translated functions regenerate the same definitions; every step checks its side conditions and otherwise leaves the
+text alone, in which case the shapes fail loudly as before."""
 import os
 import re
 
@@ -268,7 +274,7 @@ class Defs:
 
     def add(self, name, params, ctext, canonical, env, sizeof=None, alignof=None, grid=None, wrap=False, prop=False):
         sizeof, alignof = sizeof or {}, alignof or {}
-        ast = Parser(ctext, env, sizeof, alignof).parse()
+        ast = ctext if isinstance(ctext, tuple) else Parser(ctext, env, sizeof, alignof).parse()
         chosen, note = ast, None
         if canonical is not None:
             cast = Parser(canonical, env, sizeof, alignof).parse()
@@ -278,7 +284,7 @@ class Defs:
                 if same:
                     chosen = cast
                     note = "-- source: `%s` (textually different; equal to the form below on %d grid points)" % (
-                        re.sub(r"\s+", " ", ctext.strip()), len(pts))
+                        re.sub(r"\s+", " ", (ctext if isinstance(ctext, str) else to_lean(ctext)).strip()), len(pts))
         if note:
             self.out.append(note)
         body = to_lean(chosen, "prop" if prop else "nat")
@@ -378,11 +384,12 @@ def drop_directives(src):
 
 def limit_def(D, out, name, params, body, what):
     """`if (n > EXPR) throw std::bad_alloc();` -> def <name>Val + def <name> : Option Nat"""
-    chk = re.search(r"if\s*\(\s*n\s*>\s*([^;{}]*?)\)\s*\{?\s*throw\s+std::bad_alloc\s*\(\s*\)\s*;", body)
+    szT_ = {"T": ("sz", "sz"), "value_type": ("sz", "sz")}
+    chk = limit_test(body, "n", {"max_size()": ("(mallocMaxSize sz)", "fn:mallocMaxSize"), "n": ("n", "n")}, szT_)
     out.append("/-- `some m`: requests with n > m are refused before anything is computed; `none`: no such test -/")
     if chk:
-        D.add(name + "Val", ("sz",), chk.group(1), "max_size()", {"max_size()": ("(mallocMaxSize sz)", "fn:mallocMaxSize")},
-              {"T": ("sz", "sz"), "value_type": ("sz", "sz")}, grid=lambda: ((a,) for a in range(1, 4100)))
+        D.add(name + "Val", ("sz",), chk, "max_size()", {"max_size()": ("(mallocMaxSize sz)", "fn:mallocMaxSize")},
+              szT_, grid=lambda: ((a,) for a in range(1, 4100)))
         out.append("def %s (sz : Nat) : Option Nat := some (%sVal sz)" % (name, name))
     else:
         out.append("def %s (sz : Nat) : Option Nat := none" % name)
@@ -390,6 +397,472 @@ def limit_def(D, out, name, params, body, what):
 
 def nows(s):
     return re.sub(r"\s+", "", s)
+
+
+# ------------------------------------------------------------------------------------------------
+# statement-level normalisation (round five).  The extraction below anchors on statement shapes; ordinary maintenance
+# edits (renamed locals, hoisted `const` locals, a private helper, `for` instead of `while`, flipped comparisons, `nullptr`
+# tests, inverted guards) are brought back to ONE spelling here before the anchors are applied.  Every rewrite is a
+# semantics-preserving source-to-source step with its side conditions checked on the text; when a side condition cannot
+# be established the text is left alone and the anchors fail loudly as before.
+# ------------------------------------------------------------------------------------------------
+PURE_CALLS = {"static_cast", "reinterpret_cast", "const_cast", "sizeof", "alignof", "std::lcm", "max_size", "size_type",
+              "std::size_t", "size_t", "std::min", "std::max", "std::uintptr_t", "uintptr_t"}
+# callees that take their arguments by value (passing a variable to them does not modify it)
+BYVALUE_CALLS = PURE_CALLS | {"std::malloc", "std::aligned_alloc", "std::free", "std::calloc", "munmap", "mmap", "memprotect",
+                              "mprotect", "memoryPool_.free", "ALLOCATION_ASSERT", "allocation_error", "new"}
+KEYWORDS = {"if", "else", "for", "while", "do", "return", "throw", "new", "delete", "const", "constexpr", "static", "char",
+            "void", "int", "unsigned", "long", "auto", "true", "false", "nullptr", "NULL", "sizeof", "alignof", "break",
+            "static_cast", "reinterpret_cast", "const_cast", "std", "size_type", "size_t", "uintptr_t", "pointer"}
+WIDE_UNSIGNED = r"(?:size_type|std::size_t|size_t|std::uintptr_t|uintptr_t|auto)"
+NARROW_INT = r"(?:int|unsigned|unsigned\s+int|long|unsigned\s+long)"
+NOTMEMBER = r"(?<!->)(?<![\w.])(?<!::)"
+
+
+def rename(text, mapping, merge=False):
+    """simultaneous renaming of identifiers (not of members `x.name`, `x->name`, `X::name`)"""
+    mapping = {a: b for a, b in mapping.items() if a != b}
+    if not mapping:
+        return text
+    for a, b in mapping.items():
+        if not merge and b not in mapping and re.search(NOTMEMBER + re.escape(b) + r"\b", text):
+            raise TranslateError("renaming local `%s` to `%s` would capture another identifier" % (a, b))
+    rx = re.compile(NOTMEMBER + r"(%s)\b" % "|".join(re.escape(a) for a in mapping))
+    return rx.sub(lambda m: mapping[m.group(1)], text)
+
+
+def matching_paren(text, i):
+    """index just behind the `)` matching the `(` at text[i]"""
+    depth = 0
+    for j in range(i, len(text)):
+        depth += {"(": 1, ")": -1}.get(text[j], 0)
+        if depth == 0:
+            return j + 1
+    raise TranslateError("unbalanced parentheses in %r" % text[i:i + 40])
+
+
+def split_args(text):
+    out, depth, cur = [], 0, ""
+    for ch in text:
+        if ch in "([{<" and not (ch == "<" and depth == 0 and not re.search(r"_cast\s*$", cur)):
+            depth += 1
+        elif ch in ")]}>" and depth and not (ch == ">" and cur.rstrip().endswith("-")):
+            depth -= 1
+        if ch == "," and depth == 0:
+            out.append(cur.strip())
+            cur = ""
+        else:
+            cur += ch
+    if cur.strip() or out:
+        out.append(cur.strip())
+    return out
+
+
+def side_effect_free(expr):
+    if re.search(r"\+\+|--|<<=|>>=|(?<![=!<>])=(?!=)|\bnew\b|\bdelete\b|\bthrow\b|[{};]", expr):
+        return False
+    for m in re.finditer(r"([A-Za-z_][\w]*(?:\s*(?:::|\.|->)\s*[A-Za-z_]\w*)*)\s*(?:<[^<>()]*>)?\s*\(", expr):
+        if nows(m.group(1)) not in PURE_CALLS:
+            return False
+    return True
+
+
+def roots(expr):
+    """identifiers an expression depends on (members are represented by the object they belong to)"""
+    return {m.group(1) for m in re.finditer(NOTMEMBER + r"([A-Za-z_]\w*)\b", expr)} - KEYWORDS
+
+
+def enclosing_call(text, pos):
+    depth = 0
+    for j in range(pos - 1, -1, -1):
+        if text[j] == ")":
+            depth += 1
+        elif text[j] == "(":
+            if depth == 0:
+                m = re.search(r"([A-Za-z_]\w*(?:\s*(?:::|\.|->)\s*[A-Za-z_]\w*)*)\s*(?:<[^<>()]*>)?\s*$", text[:j])
+                return nows(m.group(1)) if m else ""
+            depth -= 1
+    return ""
+
+
+def modified(x, text):
+    """may `text` change the variable x (or something reached through it)?  Conservative."""
+    X = NOTMEMBER + re.escape(x) + r"\b"
+    if re.search(r"(\+\+|--)\s*" + X, text):
+        return True
+    if re.search(X + r"\s*(?:(?:->|\.)\s*\w+\s*|\[[^\]]*\]\s*)*(?:\+\+|--|(?:[-+*/%|&^]|<<|>>)?=(?!=))", text):
+        return True
+    if re.search(r"(?<!&)&\s*" + X, text):
+        return True
+    for m in re.finditer(r"[(,]\s*(" + X + r")\s*(?=[,)])", text):
+        if enclosing_call(text, m.start(1)) not in BYVALUE_CALLS:
+            return True
+    return False
+
+
+def reassigned(x, text):
+    """may `text` give the variable x itself another value (writes through x->… do not count)?"""
+    X = NOTMEMBER + re.escape(x) + r"\b"
+    if re.search(r"(\+\+|--)\s*" + X + r"(?!\s*(?:->|\.|\[))", text):
+        return True
+    if re.search(X + r"\s*(?:\+\+|--|(?:[-+*/%|&^]|<<|>>)?=(?!=))", text):
+        return True
+    if re.search(r"(?<!&)&\s*" + X, text):
+        return True
+    for m in re.finditer(r"[(,]\s*(" + X + r")\s*(?=[,)])", text):
+        if enclosing_call(text, m.start(1)) not in BYVALUE_CALLS:
+            return True
+    return False
+
+
+PATH = r"[A-Za-z_]\w*(?:\s*(?:->|\.)\s*[A-Za-z_]\w*)*"
+
+
+def paths(expr):
+    """the variables / member paths an expression reads: `it->pages` -> ("it","pages")"""
+    out = set()
+    for m in re.finditer(NOTMEMBER + "(" + PATH + r")(?!\s*[\w(<:])", expr):
+        comps = tuple(re.split(r"\s*(?:->|\.)\s*", m.group(1).strip()))
+        if comps[0] not in KEYWORDS:
+            out.add(comps)
+    for m in re.finditer(NOTMEMBER + "(" + PATH + r")\s*<(?!<)", expr):     # left operand of a comparison
+        comps = tuple(re.split(r"\s*(?:->|\.)\s*", m.group(1).strip()))
+        if comps[0] not in KEYWORDS and not comps[0].endswith("_cast"):
+            out.add(comps)
+    return out
+
+
+def path_modified(path, text):
+    """may `text` change what `path` denotes?  A write to w conflicts when w is a prefix of path or path a prefix of w
+    (members are distinguished, elements of arrays are not); taking the address of the root, binding a reference and
+    handing a prefix of the path to an unknown function count as writes.  Aliases made elsewhere are not tracked."""
+    def conflict(w):
+        k = min(len(w), len(path))
+        return w[:k] == path[:k]
+    for m in re.finditer(r"(?:\+\+|--)\s*(" + PATH + ")", text):
+        if conflict(tuple(re.split(r"\s*(?:->|\.)\s*", m.group(1)))):
+            return True
+    for m in re.finditer(NOTMEMBER + "(" + PATH + r")\s*(?:\[[^\]]*\]\s*)*(?:\+\+|--|(?:[-+*/%|&^]|<<|>>)?=(?!=))", text):
+        if conflict(tuple(re.split(r"\s*(?:->|\.)\s*", m.group(1)))):
+            return True
+    if re.search(r"(?<!&)&\s*" + NOTMEMBER + re.escape(path[0]) + r"\b", text) or re.search(r"&\s*[A-Za-z_]\w*\s*=(?!=)", text):
+        return True
+    for m in re.finditer(r"[(,]\s*(" + PATH + r")\s*(?=[,)])", text):
+        w = tuple(re.split(r"\s*(?:->|\.)\s*", m.group(1)))
+        if conflict(w) and len(w) <= len(path) and enclosing_call(text, m.start(1)) not in BYVALUE_CALLS:
+            return True
+    return False
+
+
+def unknown_calls(text):
+    """does the text call anything that might change state the translator cannot see (a function outside the lists)?"""
+    for m in re.finditer(r"([A-Za-z_]\w*(?:\s*(?:::|\.|->)\s*[A-Za-z_]\w*)*)\s*(?:<[^<>()]*>)?\s*\(", text):
+        nm = nows(m.group(1))
+        if nm not in BYVALUE_CALLS and nm not in KEYWORDS and nm not in ("char*", "void*"):
+            return True
+    return False
+
+
+def scope_end(text, pos):
+    depth = 0
+    for j in range(pos, len(text)):
+        if text[j] == "{":
+            depth += 1
+        elif text[j] == "}":
+            if depth == 0:
+                return j
+            depth -= 1
+    return len(text)
+
+
+def atom(e):
+    """e, parenthesised unless it is a name or a single call / cast expression"""
+    e = e.strip()
+    if re.fullmatch(r"[\w:.>-]+", e):
+        return e
+    k = re.match(r"[\w:]+(?:\s*<[^<>()]*>)?\s*\(", e)
+    if k and matching_paren(e, k.end() - 1) == len(e):
+        return e
+    return "(" + e + ")"
+
+
+def inline_locals(text, keep=(), int_names=(), unmodified_too=False, pointer_types=()):
+    """replace every use of a local that is initialised once from a side-effect-free expression by that expression
+    (parenthesised) and drop the declaration.  Conditions: the local is declared `const`/`constexpr` (or, with
+    unmodified_too, is never written in its scope); its type cannot narrow the value (a 64-bit unsigned type or `auto`,
+    a listed pointer type, or `int` when the initialiser mentions only the `int` constants in int_names); nothing the
+    initialiser depends on can change between the declaration and the last use (the whole scope when a loop lies in
+    between).  Locals named in `keep` are anchors of the extraction: they only lose their `const`."""
+    ptr = "|".join(pointer_types)
+    types = r"(?:%s|%s%s)" % (WIDE_UNSIGNED, NARROW_INT, ("|" + ptr) if ptr else "")
+    decl = re.compile(r"(?<![\w>.:])((?:const(?:expr)?\s+)?)(%s)((?:\s+const)?)\s+([A-Za-z_]\w*)\s*=\s*([^;{}]+);" % types)
+    pos, guard = 0, 0
+    while guard < 50:
+        guard += 1
+        m = decl.search(text, pos)
+        if not m:
+            break
+        is_const = bool(m.group(1).strip() or m.group(3).strip())
+        ty, name, expr = m.group(2), m.group(4), m.group(5).strip()
+        if name in keep:
+            if is_const:
+                text = text[:m.start()] + "%s %s = %s;" % (ty, name, expr) + text[m.end():]
+            pos = m.start() + 1
+            continue
+        end = scope_end(text, m.end())
+        scope = text[m.end():end]
+        uses = [u for u in re.finditer(NOTMEMBER + re.escape(name) + r"\b", scope)]
+        ok = side_effect_free(expr) and (is_const or (unmodified_too and not modified(name, scope)))
+        if ok and re.fullmatch(NARROW_INT, ty):
+            ok = roots(expr) <= set(int_names)
+        if ok and uses:
+            last = uses[-1].end()
+            span = scope if re.search(r"\b(for|while|do)\b", scope[:last]) else scope[:last]
+            ok = not any(path_modified(q, span) for q in paths(expr)) and not unknown_calls(span)
+        if not ok:
+            pos = m.end()
+            continue
+        new_scope = re.sub(NOTMEMBER + re.escape(name) + r"\b", lambda _: atom(expr), scope)
+        text = text[:m.start()] + new_scope + text[end:]
+        pos = m.start()
+    return text
+
+
+def norm_common(text):
+    """spelling variants with one meaning: `this->x`, null tests, the inverted guard `if (p) return p; throw E;`"""
+    text = re.sub(r"\bthis\s*->\s*", "", text)
+    text = re.sub(r"std::numeric_limits\s*<\s*(?:std::)?(?:size_t|size_type)\s*>\s*::\s*max\s*\(\s*\)", "size_type(-1)", text)
+    V_ = r"([A-Za-z_][\w]*(?:(?:->|\.)\w+)*)"
+    Z_ = r"(?:nullptr|NULL|0)"
+    text = re.sub(r"\b(if|while)\s*\(\s*%s\s*==\s*%s\s*\)" % (V_, Z_), r"\1 (!\2)", text)
+    text = re.sub(r"\b(if|while)\s*\(\s*%s\s*==\s*%s\s*\)" % (Z_, V_), r"\1 (!\2)", text)
+    text = re.sub(r"\b(if|while)\s*\(\s*%s\s*!=\s*%s\s*\)" % (V_, Z_), r"\1 (\2)", text)
+    text = re.sub(r"\b(if|while)\s*\(\s*%s\s*!=\s*%s\s*\)" % (Z_, V_), r"\1 (\2)", text)
+    # if (p) return p; throw E;   ==   if (!p) throw E; return p;      (p a plain variable)
+    text = re.sub(r"\bif\s*\(\s*(\w+)\s*\)\s*\{?\s*return\s+\1\s*;\s*\}?\s*(throw\s+[^;{}]+;)\s*$",
+                  r"if (!\1) \2 return \1;", text.rstrip())
+    return text
+
+
+def alias_after_assign(text, target):
+    """after `target = x;` with x a local pointer that is not written afterwards (and target neither), x names what
+    target names: spell it `target` from there on"""
+    m = re.search(NOTMEMBER + re.escape(target) + r"\s*=\s*([A-Za-z_]\w*)\s*;", text)
+    if not m:
+        return text
+    x, rest = m.group(1), text[m.end():]
+    if not re.search(r"\*\s*(?:const\s+)?%s\s*=" % re.escape(x), text[:m.start()]):
+        return text
+    if modified(x, rest) or modified(target, rest):
+        return text
+    return text[:m.end()] + rename(rest, {x: target}, merge=True)
+
+
+def for_to_while(text):
+    """`for (INIT; COND; STEP) BODY` -> `INIT; while (COND) { BODY STEP; }` for loops whose body has no `continue`
+    (range-based loops are left alone)"""
+    guard = 0
+    while guard < 20:
+        guard += 1
+        m = None
+        for c in re.finditer(r"\bfor\s*\(", text):
+            close = matching_paren(text, c.end() - 1)
+            parts = text[c.end():close - 1].split(";")
+            if len(parts) == 3:
+                m = (c, close, parts)
+                break
+        if not m:
+            break
+        c, close, (init, cond, step) = m
+        rest = text[close:]
+        lead = len(rest) - len(rest.lstrip())
+        if rest.lstrip().startswith("{"):
+            b0 = close + lead + 1
+            b1 = scope_end(text, b0)
+            body, after = text[b0:b1], text[b1 + 1:]
+        else:
+            st, j = parse_statement(rest, lead)
+            body, after = rest[lead:j], rest[j:]
+        if re.search(r"\bcontinue\b", body):
+            break
+        text = "%s%s while (%s) { %s %s }%s" % (text[:c.start()], (init.strip() + ";") if init.strip() else "", cond.strip() or "true",
+                                               body.strip(), (step.strip() + ";") if step.strip() else "", after)
+    return text
+
+
+def parse_statement(text, i):
+    """one statement starting at text[i:] -> (tree, end).  tree: ("block", [trees]) ("if", kw, cond, then, else|None)
+    ("ret", expr) ("other", text)"""
+    while i < len(text) and text[i].isspace():
+        i += 1
+    if text.startswith("{", i):
+        end = scope_end(text, i + 1)
+        inner, j, items = text[i + 1:end], 0, []
+        while inner[j:].strip():
+            t, j = parse_statement(inner, j)
+            items.append(t)
+        return ("block", items), end + 1
+    m = re.match(r"if(\s+constexpr)?\s*\(", text[i:])
+    if m:
+        c0 = i + m.end() - 1
+        c1 = matching_paren(text, c0)
+        then, j = parse_statement(text, c1)
+        e = re.match(r"\s*else\b", text[j:])
+        if e:
+            other, j = parse_statement(text, j + e.end())
+            return ("if", m.group(1) or "", text[c0 + 1:c1 - 1].strip(), then, other), j
+        return ("if", m.group(1) or "", text[c0 + 1:c1 - 1].strip(), then, None), j
+    j = text.find(";", i)
+    if j < 0:
+        raise TranslateError("statement without `;`: %r" % text[i:i + 40])
+    st = text[i:j].strip()
+    if re.search(r"[{}]", st):
+        raise TranslateError("statement not understood: %r" % st[:60])
+    r = re.fullmatch(r"return\s+(.*)", st, re.S)
+    return (("ret", r.group(1).strip()) if r else ("other", st)), j + 1
+
+
+def return_tree(items):
+    """a statement list all of whose paths end in `return E;` and do nothing else -> nested ("if", kw, c, T, T) / ("ret", E);
+    the guard form `if (c) return a; return b;` is the same tree as `if (c) return a; else return b;`"""
+    if not items:
+        return None
+    head, rest = items[0], items[1:]
+    if head[0] == "block":
+        return return_tree(head[1] + rest)
+    if head[0] == "ret":
+        return head if not rest else None
+    if head[0] == "if":
+        then = return_tree([head[3]])
+        if then is None:
+            return None
+        other = return_tree([head[4]]) if head[4] is not None and not rest else (return_tree(rest) if head[4] is None else None)
+        if other is None:
+            return None
+        return ("if", head[1], head[2], then, other)
+    return None
+
+
+def inline_helpers(body, class_src, exclude=()):
+    """calls of member functions of the same class whose body is a pure decision tree over `return` statements are
+    replaced by that tree at the call sites `T v = W(f(a));`, `v = W(f(a));`, `return W(f(a));` (W a side-effect-free
+    wrapper such as a cast), a one-line helper `return E;` anywhere in an expression.  Arguments must be free of side
+    effects, parameters are taken by value or const reference and are not written by the helper."""
+    for _ in range(8):
+        changed = False
+        for c in re.finditer(r"(?<![\w.>:])([A-Za-z_]\w*)\s*\(", body):
+            name = c.group(1)
+            if name in KEYWORDS or name in PURE_CALLS or name in exclude:
+                continue
+            d = re.search(r"(?:static\s+|inline\s+|constexpr\s+)*[\w:]+(?:\s*<[^<>;(){}]*>)?[\s*&]+%s\s*\(([^()]*)\)\s*(?:const\s*)?(?:noexcept\s*)?\{"
+                          % re.escape(name), class_src)
+            if not d:
+                continue
+            hbody = drop_directives(block_after(class_src, d, "helper " + name))
+            params = []
+            for prm in split_args(d.group(1)):
+                pm = re.fullmatch(r"(.*?)([A-Za-z_]\w*)", prm.strip(), re.S)
+                if not pm or "=" in prm or ("&" in pm.group(1) and "const" not in pm.group(1)) or "[[" in prm:
+                    params = None
+                    break
+                params.append(pm.group(2))
+            if params is None:
+                continue
+            a1 = matching_paren(body, c.end() - 1)
+            args = split_args(body[c.end():a1 - 1])
+            if len(args) != len(params) or not all(side_effect_free(a) for a in args):
+                continue
+            try:
+                hb = inline_locals(norm_common(hbody), unmodified_too=True)
+                items, j = [], 0
+                while hb[j:].strip():
+                    t, j = parse_statement(hb, j)
+                    items.append(t)
+            except TranslateError:
+                continue
+            tree = return_tree(items)
+            if tree is None or any(modified(p_, hb) for p_ in params):
+                continue
+            sub = {p_: (a if re.fullmatch(r"[\w:.>-]+", a) else "(" + a + ")") for p_, a in zip(params, args)}
+
+            def inst(e):
+                return re.sub(NOTMEMBER + r"(%s)\b" % "|".join(map(re.escape, sub)), lambda m_: sub[m_.group(1)], e) if sub else e
+
+            if tree[0] == "ret":
+                body = body[:c.start()] + atom(inst(tree[1])) + body[a1:]
+                changed = True
+                break
+            # the statement the call sits in
+            s0 = max(body.rfind(ch, 0, c.start()) for ch in ";{}") + 1
+            s1 = body.find(";", a1)
+            if s1 < 0:
+                continue
+            pre, post = body[s0:c.start()], body[a1:s1]
+            f = (re.fullmatch(r"\s*(?:const\s+)?([\w:]+(?:\s*\*)?)\s+(?:const\s+)?([A-Za-z_]\w*)\s*=\s*(.*)", pre, re.S)
+                 or re.fullmatch(r"\s*()([A-Za-z_]\w*)\s*=(?!=)\s*(.*)", pre, re.S)
+                 or re.fullmatch(r"\s*()(return)\s+(.*)", pre, re.S))
+            if not f or f.group(1) in ("return", "else") or not side_effect_free(f.group(3) + " 0 " + post) \
+                    or re.search(r"[;{}]", post):
+                continue
+            lhs = "return " if f.group(2) == "return" else f.group(2) + " = "
+
+            def emit(t):
+                if t[0] == "ret":
+                    return "%s%s%s%s;" % (lhs, f.group(3), atom(inst(t[1])), post)
+                a, b = emit(t[3]), emit(t[4])
+                a = a if t[3][0] == "ret" else "{ " + a + " }"
+                b = b if t[4][0] == "ret" else "{ " + b + " }"
+                return "if%s (%s) %s else %s" % (t[1], inst(t[2]), a, b)
+            declp = "%s %s; " % (f.group(1), f.group(2)) if f.group(1) else ""
+            body = body[:s0] + " " + declp + emit(tree) + body[s1 + 1:]
+            changed = True
+            break
+        if not changed:
+            break
+    return body
+
+
+def return_expr(body, what):
+    """a function body that only selects between return expressions (const locals, if/else, guard clauses) -> one
+    C expression text"""
+    b = inline_locals(norm_common(body), unmodified_too=True)
+    items, j = [], 0
+    while b[j:].strip():
+        t, j = parse_statement(b, j)
+        items.append(t)
+    tree = return_tree(items)
+    if tree is None:
+        raise TranslateError("%s: the body is not a selection between return expressions" % what)
+
+    def ex(t):
+        return "(%s)" % t[1] if t[0] == "ret" else "((%s) ? %s : %s)" % (t[2], ex(t[3]), ex(t[4]))
+    return ex(tree)
+
+
+def limit_test(body, var, env, sizeof):
+    """the request bound: `if (n > E) throw std::bad_alloc();` in any of its spellings (`E < n`, `!(n <= E)`, `!(E >= n)`,
+    braces) -> AST of E, or None when the body has no such test"""
+    for m in re.finditer(r"\bif\s*\(", body):
+        c1 = matching_paren(body, m.end() - 1)
+        if not re.match(r"\s*\{?\s*throw\s+std::bad_alloc\s*\(\s*\)\s*;", body[c1:]):
+            continue
+        try:
+            ast = Parser(body[m.end():c1 - 1], env, sizeof, {}).parse()
+        except TranslateError:
+            continue
+        neg = False
+        while ast[0] == "not":
+            neg, ast = not neg, ast[1]
+        if ast[0] != "cmp":
+            continue
+        op, a, b = ast[1], ast[2], ast[3]
+        if neg:
+            op = {"<": ">=", "<=": ">", ">": "<=", ">=": "<", "==": "!=", "!=": "=="}[op]
+        if op == "<":
+            op, a, b = ">", b, a
+        if op == ">" and a == ("var",) + tuple(env[var]):
+            return b
+    return None
 
 
 # ------------------------------------------------------------------------------------------------
@@ -459,7 +932,7 @@ def translate(repo):
     }
     out.append("/-! Pool<T,s>: compile-time slot geometry as functions of sz = sizeof(T), al = alignof(T), s -/")
     for name in ("unionSize", "size", "alignment", "alignedSize", "chunkSize", "elements"):
-        m = find(r"constexpr\s+static\s+(?:int|std::size_t|size_t|unsigned)\s+%s\s*=\s*([^;]+);" % name, pool_src,
+        m = find(r"(?:constexpr\s+static|static\s+constexpr|static\s+const|const\s+static)\s+(?:const\s+)?(?:int|std::size_t|size_t|unsigned)\s+%s\s*=\s*([^;]+);" % name, pool_src,
                  "Pool::" + name)
         D.add(name, ("sz", "al", "s"), m.group(1), canon[name], env, sizeof, alignof, grid=pool_grid)
         env[name] = ("(%s sz al s)" % name, "fn:" + name)
@@ -471,9 +944,25 @@ def translate(repo):
     # `for(char* element=start+F; element<last; element=element+S)` with `last = &start[E]` (or `start + E`), and the
     # index loop `for (… i = I; i < N; ++i)` whose body addresses `start + i*S` / `&start[i*S]`.
     gm = find(r"Pool<T,S>::grow\s*\(\s*\)\s*\{", src, "Pool::grow")
-    gbody = block_after(src, gm, "Pool::grow")
-    if not re.search(r"char\s*\*\s*start\s*=\s*chunks_->chunk_\s*;", gbody):
+    geo_names = ("unionSize", "size", "alignment", "alignedSize", "chunkSize", "elements")
+    gbody = alias_after_assign(norm_common(block_after(src, gm, "Pool::grow")), "chunks_")
+    gbody = inline_locals(gbody, keep=("last",), int_names=geo_names)
+    # the locals by their role: start of the chunk's storage, tail of the list being built, one-past pointer, new slot
+    roles = {}
+    am_ = re.search(r"(?:char\s*\*|auto\s*\*?)\s*(?:const\s+)?(\w+)\s*=\s*(?:chunks_->chunk_|&\s*chunks_->chunk_\s*\[\s*0\s*\])\s*;", gbody)
+    if not am_:
         raise TranslateError("Pool::grow: `char* start = chunks_->chunk_;` not found")
+    roles[am_.group(1)] = "start"
+    S_ = re.escape(am_.group(1))
+    for rm_ in re.finditer(r"(?:Reference\s*\*|auto\s*\*?)\s*(?:const\s+)?(\w+)\s*=\s*new\s*\(([^;]*?)\)\s*\(?\s*Reference\s*\)?\s*;", gbody):
+        roles.setdefault(rm_.group(1), "ref" if re.fullmatch(S_, rm_.group(2).strip()) else "next")
+    lm0 = re.search(r"char\s*\*\s*(?:const\s+)?(\w+)\s*=\s*(?:&\s*%s\s*\[|%s\s*\+)" % (S_, S_), gbody)
+    if lm0:
+        roles.setdefault(lm0.group(1), "last")
+    if sorted(roles.values()) not in (["last", "next", "ref", "start"], ["next", "ref", "start"]):
+        raise TranslateError("Pool::grow: locals not understood: %r" % roles)
+    gbody = rename(gbody, roles)
+    gbody = re.sub(r"(\*\s*)const\s+(start|ref|last|next)\b", r"\1\2", gbody)
     if not re.search(r"Reference\s*\*\s*ref\s*=\s*new\s*\(\s*start\s*\)\s*\(?\s*Reference\s*\)?\s*;", gbody) or \
             not re.search(r"head_\s*=\s*ref\s*;", gbody):
         raise TranslateError("Pool::grow: slot 0 (`ref = new (start) Reference; head_ = ref;`) not understood")
@@ -482,6 +971,14 @@ def translate(repo):
                          r"\1\s*(?:=\s*\1\s*\+|\+=)\s*([^;)]+?)\s*\)", gbody)
     idx_loop = re.search(r"for\s*\(\s*(?:std::size_t|size_t|int|unsigned|unsigned\s+int|long)\s+(\w+)\s*=\s*([^;]+?)\s*;\s*\1\s*<\s*([^;]+?)\s*;\s*"
                          r"(?:\+\+\s*\1|\1\s*\+\+)\s*\)", gbody)
+    if not ptr_loop and not idx_loop:
+        wl = re.search(r"char\s*\*\s*(\w+)\s*=\s*start\s*\+\s*([^;]+?)\s*;\s*while\s*\(\s*\1\s*(<=?)\s*last\s*\)\s*\{([^{}]*?)"
+                       r"\1\s*(?:=\s*\1\s*\+|\+=)\s*([^;)]+?)\s*;\s*\}", gbody)
+        if wl and not re.search(r"\bcontinue\b", wl.group(4)) and not modified(wl.group(1), wl.group(4)):
+            gbody = gbody[:wl.start()] + "for(char* %s=start+%s; %s%slast; %s=%s+%s) {%s}" % (
+                wl.group(1), wl.group(2), wl.group(1), wl.group(3), wl.group(1), wl.group(1), wl.group(5), wl.group(4)) + gbody[wl.end():]
+            ptr_loop = re.search(r"for\s*\(\s*char\s*\*\s*(\w+)\s*=\s*start\s*\+\s*([^;]+?)\s*;\s*\1\s*(<=?)\s*last\s*;\s*"
+                                 r"\1\s*(?:=\s*\1\s*\+|\+=)\s*([^;)]+?)\s*\)", gbody)
     if ptr_loop:
         lm_ = re.search(r"char\s*\*\s*last\s*=\s*(?:&\s*start\s*\[([^;]+)\]|start\s*\+\s*([^;]+))\s*;", gbody)
         if not lm_:
@@ -491,10 +988,11 @@ def translate(repo):
             g_end = "(%s) + 1" % g_end
     elif idx_loop:
         iv = idx_loop.group(1)
-        am = re.search(r"(?:&\s*start\s*\[\s*%s\s*\*\s*([^\]]+?)\s*\]|start\s*\+\s*%s\s*\*\s*([^;)]+?)\s*[;)])" % (iv, iv), gbody)
+        am = re.search(r"(?:&\s*start\s*\[\s*%s\s*\*\s*([^\]]+?)\s*\]|start\s*\+\s*%s\s*\*\s*([^;)]+?)\s*[;)]"
+                       r"|&\s*start\s*\[\s*([^\]*]+?)\s*\*\s*%s\s*\]|start\s*\+\s*([^;)*]+?)\s*\*\s*%s\s*[;)])" % (iv, iv, iv, iv), gbody)
         if not am:
             raise TranslateError("Pool::grow: index loop body does not address `start + i*stride`")
-        stride = (am.group(1) or am.group(2)).strip()
+        stride = (am.group(1) or am.group(2) or am.group(3) or am.group(4)).strip()
         g_first = "(%s) * (%s)" % (idx_loop.group(2), stride)
         g_step = stride
         g_end = "(%s) * (%s)" % (idx_loop.group(3), stride)
@@ -509,13 +1007,27 @@ def translate(repo):
     D.add("growEnd", ("sz", "al", "s"), g_end, "elements*alignedSize", genv, sizeof, alignof, grid=pool_grid)
     # Pool::free: the range test of the search over the chunks (present without NDEBUG), with the chunk's storage
     # starting at address `base`: the condition under which the walk stops at a chunk
-    fm = find(r"Pool<T,S>::free\s*\(\s*void\s*\*\s*b\s*\)\s*\{", src, "Pool::free")
-    fbody = block_after(src, fm, "Pool::free")
+    fm = find(r"Pool<T,S>::free\s*\(\s*void\s*\*\s*(?:const\s+)?(\w+)\s*\)\s*\{", src, "Pool::free")
+    fbody = norm_common(block_after(src, fm, "Pool::free"))
+    froles = {fm.group(1): "b"}
+    for rx_, role in ((r"Chunk\s*\*\s*(\w+)\s*(?:=\s*chunks_\s*)?;", "current"),
+                      (r"(?:Reference\s*\*|auto\s*\*?)\s*(?:const\s+)?(\w+)\s*=\s*static_cast\s*<\s*Reference\s*\*\s*>", "freed")):
+        m_ = re.search(rx_, fbody)
+        if m_:
+            froles[m_.group(1)] = role
+    fbody = rename(fbody, froles)
+    fbody = re.sub(r"(\*\s*)const\s+(freed)\b", r"\1\2", fbody)
     dbg = re.search(r"#\s*(?:ifndef\s+NDEBUG|if\s*!\s*defined\s*\(?\s*NDEBUG\s*\)?)(.*?)#\s*endif", fbody, re.S)
     if not dbg:
         raise TranslateError("Pool::free: no `#ifndef NDEBUG … #endif` block with the range test")
-    cm = re.search(r"while\s*\(\s*current\s*\)\s*\{\s*if\s*\((.*?)\)\s*break\s*;\s*current\s*=\s*current->next_\s*;\s*\}\s*"
-                   r"if\s*\(\s*!\s*current\s*\)\s*\{?\s*throw\s+std::bad_alloc\s*\(\s*\)\s*;", dbg.group(1), re.S)
+    # the walk over the chunks in its `while` form (a classic `for` loop is rewritten; locals of the range test inlined)
+    walk = inline_locals(norm_common(for_to_while(dbg.group(1))), unmodified_too=True,
+                         pointer_types=(r"(?:const\s+)?(?:char|void)\s*\*",))
+    walk = re.sub(r"Chunk\s*\*\s*current\s*;\s*current\s*=\s*chunks_\s*;", "Chunk* current=chunks_;", walk)
+    if not re.search(r"Chunk\s*\*\s*current\s*=\s*chunks_\s*;\s*while", walk):
+        raise TranslateError("Pool::free: the search does not start at chunks_")
+    cm = re.search(r"while\s*\(\s*current\s*\)\s*\{\s*if\s*\(((?:[^{};])*?)\)\s*\{?\s*break\s*;\s*\}?\s*current\s*=\s*current->next_\s*;\s*\}\s*"
+                   r"if\s*\(\s*!\s*current\s*\)\s*\{?\s*throw\s+std::bad_alloc\s*\(\s*\)\s*;", walk, re.S)
     if not cm:
         raise TranslateError("Pool::free: search over the chunks not understood")
     cond = cm.group(1)
@@ -530,17 +1042,20 @@ def translate(repo):
         raise TranslateError("Pool::free: `freed->next_ = head_; head_ = freed;` not found behind the range test")
     out.append("")
     out.append("/-! PoolAllocator<T,s> -/")
-    m = find(r"constexpr\s+static\s+(?:int|std::size_t|size_t)\s+size\s*=\s*([^;]+);", pa_src, "PoolAllocator::size")
+    m = find(r"(?:constexpr\s+static|static\s+constexpr|static\s+const|const\s+static)\s+(?:const\s+)?(?:int|std::size_t|size_t)\s+size\s*=\s*([^;]+);", pa_src, "PoolAllocator::size")
     D.add("paPoolSize", ("sz", "s"), m.group(1), "s * sizeof(value_type)", {"s": ("s", "s")},
           {"value_type": ("sz", "sz"), "T": ("sz", "sz")}, grid=lambda: ((a, c) for (a, b, c) in pool_grid() if b == 1))
     if not re.search(r"typedef\s+Pool\s*<\s*T\s*,\s*size\s*>\s*PoolType\s*;", pa_src):
         raise TranslateError("PoolAllocator::PoolType is no longer Pool<T,size>")
-    m = find(r"PoolAllocator<T,s>::allocate\s*\([^)]*\)\s*\{", src, "PoolAllocator::allocate")
-    pbody = nows(block_after(src, m, "PoolAllocator::allocate"))
-    ret = r"returnstatic_cast<T\*>\(memoryPool_\.allocate\(\)\);"
+    m = find(r"PoolAllocator<T,s>::allocate\s*\(\s*(?:const\s+)?(?:std::size_t|size_t|size_type)\s+(\w+)[^)]*\)\s*\{", src,
+             "PoolAllocator::allocate")
+    pbody = nows(rename(norm_common(block_after(src, m, "PoolAllocator::allocate")), {m.group(1): "n"}))
+    ret = r"returnstatic_cast<(?:T\*|pointer)>\(memoryPool_\.allocate\(\)\);"
     thr = r"throwstd::bad_alloc\(\);"
-    m1 = re.fullmatch(r"if\((.*?)\)\{?%s\}?else\{?%s\}?" % (ret, thr), pbody)
+    m1 = re.fullmatch(r"if\((.*?)\)\{?%s\}?(?:else)?\{?%s\}?" % (ret, thr), pbody)
     m2 = re.fullmatch(r"if\((.*?)\)\{?%s\}?(?:else)?\{?%s\}?" % (thr, ret), pbody)
+    m3 = re.fullmatch(r"return\(?(.*?)\)?\?static_cast<(?:T\*|pointer)>\(memoryPool_\.allocate\(\)\):throwstd::bad_alloc\(\);", pbody)
+    m1 = m1 or m3
     grid1 = lambda: ((n,) for n in (0, 1, 2, 3, 2 ** 32, 2 ** 32 + 1, 2 ** 63, 2 ** 64 - 1))
     if m1:
         D.add("paAccepts", ("n",), m1.group(1), "n==1", {"n": ("n", "n")}, prop=True, grid=grid1)
@@ -548,13 +1063,24 @@ def translate(repo):
         D.add("paAccepts", ("n",), "!(" + m2.group(1) + ")", "n==1", {"n": ("n", "n")}, prop=True, grid=grid1)
     else:
         raise TranslateError("PoolAllocator::allocate body not understood: %r" % pbody)
-    m = find(r"(?:int|size_type|std::size_t)\s+max_size\s*\(\s*\)\s*const\s*(?:noexcept)?\s*\{\s*return\s+([^;]+);\s*\}", pa_src,
-             "PoolAllocator::max_size")
-    D.add("paMaxSize", (), m.group(1), "1", {}, grid=lambda: [()])
+    m = find(r"(?:int|size_type|std::size_t)\s+max_size\s*\(\s*\)\s*const\s*(?:noexcept)?\s*\{", pa_src, "PoolAllocator::max_size")
+    D.add("paMaxSize", (), return_expr(block_after(pa_src, m, "PoolAllocator::max_size"), "PoolAllocator::max_size"), "1", {},
+          grid=lambda: [()])
     # deallocate(p, n) gives back n consecutive objects, one pool.free each
-    dm = find(r"PoolAllocator<T,s>::deallocate\s*\([^)]*\)\s*\{", src, "PoolAllocator::deallocate")
-    dbody_pa = nows(block_after(src, dm, "PoolAllocator::deallocate"))
-    if not re.fullmatch(r"for\((?:size_t|std::size_t|size_type)i=0;i<n;(?:i\+\+|\+\+i)\)\{?memoryPool_\.free\(p\+\+\);\}?", dbody_pa):
+    dm = find(r"PoolAllocator<T,s>::deallocate\s*\(\s*(?:pointer|T\s*\*)\s*(\w+)\s*,\s*(?:std::size_t|size_t|size_type)\s+(\w+)\s*\)\s*\{",
+              src, "PoolAllocator::deallocate")
+    dtext = rename(norm_common(block_after(src, dm, "PoolAllocator::deallocate")), {dm.group(1): "p", dm.group(2): "n"})
+    dtext = inline_locals(dtext, unmodified_too=True, pointer_types=(r"(?:const\s+)?(?:pointer|T\s*\*)",))
+    dbody_pa = nows(dtext)
+    U_ = r"(?:size_t|std::size_t|size_type|unsignedlong|unsigned|unsignedint)"
+    # spellings of "pool.free on p, p+1, …, p+n-1 in this order, nothing else"
+    forms = [r"for\(%s(\w+)=0;\1(?:<|!=)n;(?:\1\+\+|\+\+\1)\)\{?memoryPool_\.free\(p\+\+\);\}?" % U_,
+             r"for\(%s(\w+)=0;\1(?:<|!=)n;(?:\1\+\+|\+\+\1)\)\{?memoryPool_\.free\((?:p\+\1|&p\[\1\])\);\}?" % U_,
+             r"while\(n--(?:>0|!=0)?\)\{?memoryPool_\.free\(p\+\+\);\}?",
+             r"for\(;n(?:>0|!=0)?;(?:--n|n--)\)\{?memoryPool_\.free\(p\+\+\);\}?",
+             r"while\(n(?:>0|!=0)?\)\{memoryPool_\.free\(p\+\+\);(?:--n|n--);\}",
+             r"for\((?:pointer|T\*|auto)(\w+)=p;\1(?:!=|<)\(?p\+n\)?;(?:\1\+\+|\+\+\1)\)\{?memoryPool_\.free\(\1\);\}?"]
+    if not any(re.fullmatch(f_, dbody_pa) for f_ in forms):
         raise TranslateError("PoolAllocator::deallocate body not understood: %r" % dbody_pa)
     out.append("/-- deallocate(p, n) calls pool.free this many times (on p, p+1, …) -/")
     out.append("def paDeallocFrees (n : Nat) : Nat := n")
@@ -564,12 +1090,20 @@ def translate(repo):
     src = drop_foreign_branches(strip_comments(open(os.path.join(repo, "dune/common/mallocallocator.hh")).read()))
     out.append("/-! MallocAllocator<T> -/")
     szT = {"T": ("sz", "sz"), "value_type": ("sz", "sz")}
-    m = find(r"size_type\s+max_size\s*\(\s*\)\s*const\s*(?:noexcept)?\s*\{\s*return\s+([^;]+);\s*\}", src,
-             "MallocAllocator::max_size")
-    D.add("mallocMaxSize", ("sz",), m.group(1), "size_type(-1) / sizeof(T)", {}, szT,
+    m = find(r"size_type\s+max_size\s*\(\s*\)\s*const\s*(?:noexcept)?\s*\{", src, "MallocAllocator::max_size")
+    D.add("mallocMaxSize", ("sz",), return_expr(block_after(src, m, "MallocAllocator::max_size"), "MallocAllocator::max_size"),
+          "size_type(-1) / sizeof(T)", {}, szT,
           grid=lambda: ((a,) for a in range(1, 4100)))
-    body = drop_directives(block_after(src, find(r"pointer\s+allocate\s*\(\s*size_type\s+n[^)]*\)\s*\{", src,
-                                                 "MallocAllocator::allocate"), "MallocAllocator::allocate"))
+    am_ = find(r"pointer\s+allocate\s*\(\s*(?:const\s+)?size_type\s+(\w+)[^)]*\)\s*\{", src, "MallocAllocator::allocate")
+    body = drop_directives(block_after(src, am_, "MallocAllocator::allocate"))
+    # private helpers of the class are expanded at their call sites, then the locals are named by role
+    body = norm_common(inline_helpers(norm_common(body), src, exclude=("allocate",)))
+    mroles = {am_.group(1): "n"}
+    rm_ = re.search(r"return\s+(\w+)\s*;\s*$", body.strip())
+    if rm_:
+        mroles[rm_.group(1)] = "ret"
+    body = rename(body, mroles)
+    body = inline_locals(body, keep=("ret",), unmodified_too=True)
     limit_def(D, out, "mallocLimit", ("sz",), body, "MallocAllocator")
     calls = re.findall(r"std::malloc\s*\(([^;]*)\)\s*\)\s*;", body)
     if len(calls) != 1:
@@ -598,7 +1132,7 @@ def translate(repo):
     out.append("def mallocBytesFor (sz al n : Nat) : Nat := if mallocOverCond al then mallocOverBytes sz n else mallocBytes sz n")
     if not re.search(r"if\s*\(\s*!\s*ret\s*\)\s*\{?\s*throw\s+std::bad_alloc", body):
         raise TranslateError("MallocAllocator::allocate no longer turns a null result into bad_alloc")
-    if not re.search(r"void\s+deallocate\s*\([^)]*\)\s*\{\s*std::free\s*\(\s*p\s*\)\s*;\s*\}", src):
+    if not re.search(r"void\s+deallocate\s*\(\s*pointer\s+(\w+)\s*,[^)]*\)\s*\{\s*(?:std::)?free\s*\(\s*\1\s*\)\s*;\s*\}", src):
         raise TranslateError("MallocAllocator::deallocate is no longer std::free(p)")
     out.append("")
 
@@ -613,13 +1147,23 @@ def translate(repo):
         raise TranslateError("fixAlignment changed: %r" % fx)
     find(r"alignment\s*=\s*fixAlignment\s*\(", src, "AlignedAllocator::alignment")
     out.append("def alignedAlignment (al A : Nat) : Nat := if A = 0 then al else A")
-    body = block_after(src, find(r"pointer\s+allocate\s*\(\s*size_type\s+n[^)]*\)\s*\{", src, "AlignedAllocator::allocate"),
-                       "AlignedAllocator::allocate")
+    am_ = find(r"pointer\s+allocate\s*\(\s*(?:const\s+)?size_type\s+(\w+)[^)]*\)\s*\{", src, "AlignedAllocator::allocate")
+    body = norm_common(inline_helpers(norm_common(drop_directives(block_after(src, am_, "AlignedAllocator::allocate"))), src,
+                                      exclude=("allocate", "fixAlignment")))
+    aroles = {am_.group(1): "n"}
+    rm_ = re.search(r"return\s+(\w+)\s*;\s*$", body.strip())
+    if rm_:
+        aroles[rm_.group(1)] = "ret"
+    body = rename(body, aroles)
+    # the byte count is read off the call itself: a local holding it (`size_type size = …`) is inlined first
+    body = inline_locals(body, keep=("ret",), unmodified_too=True)
     limit_def(D, out, "alignedLimit", ("sz",), body, "AlignedAllocator")
-    m = find(r"size_type\s+size\s*=\s*([^;]+);", body, "AlignedAllocator byte size")
-    D.add("alignedBytes", ("sz", "n"), m.group(1), "n * sizeof(T)", {"n": ("n", "n")}, szT, grid=count_grid, wrap=True)
-    if not re.search(r"std::aligned_alloc\s*\(\s*alignment\s*,\s*size\s*\)", body):
-        raise TranslateError("AlignedAllocator no longer calls std::aligned_alloc(alignment, size)")
+    calls = re.findall(r"std::aligned_alloc\s*\(\s*alignment\s*,([^;]*)\)\s*\)\s*;", body)
+    if len(calls) != 1 or len(re.findall(r"aligned_alloc|malloc", body)) != 1:
+        raise TranslateError("AlignedAllocator no longer makes exactly the one call std::aligned_alloc(alignment, <bytes>)")
+    D.add("alignedBytes", ("sz", "n"), calls[0], "n * sizeof(T)", {"n": ("n", "n")}, szT, grid=count_grid, wrap=True)
+    if not re.search(r"pointer\s+ret\s*=\s*static_cast\s*<\s*pointer\s*>\s*\(\s*std::aligned_alloc", body):
+        raise TranslateError("AlignedAllocator: the result of std::aligned_alloc is not what is tested and returned")
     if not re.search(r"if\s*\(\s*!\s*ret\s*\)\s*\{?\s*throw\s+std::bad_alloc", body):
         raise TranslateError("AlignedAllocator::allocate no longer turns a null result into bad_alloc")
     out.append("")
@@ -627,13 +1171,22 @@ def translate(repo):
     # ---- DebugAllocator -----------------------------------------------------------------------
     src = drop_foreign_branches(strip_comments(open(os.path.join(repo, "dune/common/debugallocator.hh")).read()))
     out.append("/-! DebugMemory::AllocationManager: page arithmetic (page = page_size) -/")
-    body = block_after(src, find(r"T\s*\*\s*allocate\s*\(\s*size_type\s+n\s*\)\s*\{", src, "AllocationManager::allocate"),
-                       "AllocationManager::allocate")
+    am_ = find(r"T\s*\*\s*allocate\s*\(\s*(?:const\s+)?size_type\s+(\w+)\s*\)\s*\{", src, "AllocationManager::allocate")
+    body = norm_common(block_after(src, am_, "AllocationManager::allocate"))
+    droles = {am_.group(1): "n"}
+    m_ = re.search(r"AllocationInfo\s+(\w+)\s*[;({]", body)
+    if m_:
+        droles[m_.group(1)] = "ai"
+    body = rename(body, droles)
+    # locals other than `overlap` (an anchor: dbgOverlap) that merely name a side-effect-free value are inlined
+    body = inline_locals(body, keep=("overlap",), pointer_types=(r"char\s*\*",))
+    body = re.sub(r"if\s*\(\s*ai\.page_ptr\s*==\s*MAP_FAILED\s*\)", "if (MAP_FAILED == ai.page_ptr)", body)
+    body = re.sub(r"\bmmap\s*\(\s*(?:nullptr|0)\s*,", "mmap(NULL,", body)
     find(r"return\s+static_cast<T\*>\s*\(\s*ai\.ptr\s*\)\s*;", body, "AllocationManager::allocate returns ai.ptr")
-    chk = re.search(r"if\s*\(\s*n\s*>\s*([^;{}]*?)\)\s*\{?\s*throw\s+std::bad_alloc\s*\(\s*\)\s*;", body)
+    chk = limit_test(body, "n", {"page_size": ("page", "page"), "n": ("n", "n")}, szT)
     out.append("/-- `some m`: requests with n > m are refused before anything is computed; `none`: no such test -/")
     if chk:
-        D.add("dbgMaxCount", ("sz", "page"), chk.group(1), "(size_type(-1) - 2 * page_size) / sizeof(T)",
+        D.add("dbgMaxCount", ("sz", "page"), chk, "(size_type(-1) - 2 * page_size) / sizeof(T)",
               {"page_size": ("page", "page")}, szT, grid=limit_grid)
         out.append("def dbgLimit (sz page : Nat) : Option Nat := some (dbgMaxCount sz page)")
     else:
@@ -658,8 +1211,39 @@ def translate(repo):
              body, "guard page protection")
     out.append("/-- the inaccessible guard page is [page_ptr + dbgGuardOff, page_ptr + dbgGuardOff + page) -/")
     D.add("dbgGuardOff", ("cap", "page"), "(" + m.group(1) + ")", "(ai.pages-1) * page_size", env, grid=page_grid)
-    dbody = block_after(src, find(r"void\s+deallocate\s*\(\s*T\s*\*\s*ptr\s*,\s*size_type\s+n\s*=\s*0\s*\)\s*(?:noexcept)?\s*\{",
-                                  src, "AllocationManager::deallocate"), "AllocationManager::deallocate")
+    dm_ = find(r"void\s+deallocate\s*\(\s*T\s*\*\s*(?:const\s+)?(\w+)\s*,\s*(?:const\s+)?size_type\s+(\w+)\s*=\s*0\s*\)\s*(?:noexcept)?\s*\{",
+               src, "AllocationManager::deallocate")
+    dbody = norm_common(block_after(src, dm_, "AllocationManager::deallocate"))
+    # parameters, the lookup key and the iterator by their role
+    km_ = find(r"(?:void\s*\*|auto\s*\*?)\s*(?:const\s+)?(\w+)\s*=\s*static_cast<void\*>\s*\(", dbody, "deallocate lookup key")
+    K_ = re.escape(km_.group(1))
+    fi = re.search(r"(?:auto|AllocationList::iterator)\s+(\w+)\s*=\s*std::find_if\s*\(\s*allocation_list\.begin\s*\(\s*\)\s*,\s*"
+                   r"allocation_list\.end\s*\(\s*\)\s*,\s*\[[^\]]*\]\s*\(\s*(?:const\s+)?(?:AllocationInfo|auto)\s*&\s*(\w+)\s*\)\s*"
+                   r"\{\s*return\s+(?:\2\.page_ptr\s*==\s*%s|%s\s*==\s*\2\.page_ptr)\s*;\s*\}\s*\)\s*;\s*"
+                   r"if\s*\(\s*(?:\1\s*==\s*allocation_list\.end\s*\(\s*\)|allocation_list\.end\s*\(\s*\)\s*==\s*\1)\s*\)\s*\{?\s*"
+                   r"(allocation_error\s*\([^;]*\)\s*;)\s*\}?" % (K_, K_), dbody)
+    try:
+        cc_ = strip_comments(open(os.path.join(repo, "dune/common/debugallocator.cc")).read())
+        aborts = bool(re.search(r"AllocationManager::allocation_error\s*\([^)]*\)\s*\{[^{}]*std::abort\s*\(\s*\)\s*;\s*\}", cc_))
+    except OSError:
+        aborts = False
+    if fi and aborts and not reassigned(fi.group(1), dbody[fi.end():].replace("allocation_list.erase(%s)" % fi.group(1), "")):
+        # std::find_if returns the first entry that satisfies the predicate: the hand-written loop with its early return
+        tail = dbody[fi.end():].rstrip()
+        if not re.search(r"return\s*;\s*$", tail):
+            tail += " return;"
+        it_ = fi.group(1)
+        dbody = "%sfor (%s=allocation_list.begin(); %s!=allocation_list.end(); %s++) { if (%s->page_ptr == %s) { %s } } %s" % (
+            dbody[:fi.start()], it_, it_, it_, it_, km_.group(1), tail, fi.group(3))
+    im_ = re.search(r"if\s*\(\s*(?:(\w+)->page_ptr\s*==\s*%s|%s\s*==\s*(\w+)->page_ptr)\s*\)" % (K_, K_), dbody)
+    if not im_:
+        raise TranslateError("deallocate no longer searches by page_ptr")
+    I_ = im_.group(1) or im_.group(2)
+    dbody = rename(dbody, {dm_.group(1): "ptr", dm_.group(2): "n"})
+    dbody = rename(dbody, {km_.group(1): "KEY__", I_: "it"})
+    dbody = re.sub(r"\bKEY__\b", "page_ptr", dbody)
+    dbody = re.sub(r"(\*\s*)const\s+(page_ptr)\b", r"\1\2", dbody)
+    dbody = re.sub(r"if\s*\(\s*page_ptr\s*==\s*it->page_ptr\s*\)", "if (it->page_ptr == page_ptr)", dbody)
     key = find(r"void\s*\*\s*page_ptr\s*=\s*static_cast<void\*>\s*\((.*?)\)\s*;", dbody, "deallocate lookup key").group(1)
     if nows(key) != "(char*)(ptr)-((std::uintptr_t)(ptr)%page_size)":
         raise TranslateError("deallocate lookup key changed: %r" % nows(key))
@@ -670,6 +1254,8 @@ def translate(repo):
     # the assertions on the entry found
     found = block_after(dbody, find(r"if\s*\(\s*it->page_ptr\s*==\s*page_ptr\s*\)\s*\{", dbody, "deallocate: entry found"),
                         "deallocate: entry found")
+    # hoisted values (e.g. the mapping's length computed once for memprotect and munmap) back into their uses
+    found = inline_locals(found, unmodified_too=True)
     if not re.search(r"ALLOCATION_ASSERT\s*\(\s*ptr\s*==\s*it->ptr\s*\)\s*;", found):
         raise TranslateError("deallocate no longer asserts ptr == it->ptr")
     out.append("/-- deallocate(ptr, n): the size test on the entry found (`true`: passes) -/")
@@ -733,6 +1319,7 @@ def translate(repo):
         raise TranslateError("deallocate: no return after the entry found was released")
     # the destructor unmaps whatever is still recorded
     dtor = block_after(src, find(r"~AllocationManager\s*\(\s*\)\s*\{", src, "~AllocationManager"), "~AllocationManager")
+    dtor = inline_locals(norm_common(dtor), unmodified_too=True)
     # the walk over the whole list: iterator loop or range-based for, any name for the entry
     m = find(r"munmap\s*\(\s*(\w+)\s*(->|\.)\s*page_ptr\s*,([^;]*)\)\s*;", dtor, "~AllocationManager: munmap(<entry>.page_ptr, …)")
     var, acc = m.group(1), m.group(2)
